@@ -1,4 +1,5 @@
 import SwcVerif.Model.Sort
+import SwcVerif.Proofs.Sort
 /-! # C05 — node renumbering is a pure relabelling with parents before children
 
 Theorems about the model `SortM.sortNodesImpl` of `sort_nodes_impl` (the stack loop; tied to the code by
@@ -35,34 +36,204 @@ def IsTreeTable (r : Rose) (ids pids : List Int) : Prop :=
   Represents r ids pids ∧ r.ids.Perm ids ∧ ids.length = pids.length ∧
   countRoots pids = 1 ∧ firstRoot ids pids = some r.id
 
+/-! ### helper lemmas: the machine against `pre` -/
+
+mutual
+theorem pre_length : ∀ (r : Rose) (p : Int) (k : Nat), (pre r p k).length = r.size
+  | .node i ks, p, k => by simp [pre, Rose.size, preRev_length ks k (k+1)]; omega
+theorem preRev_length : ∀ (ks : List Rose) (par k : Nat), (preRev ks par k).length = sizeL ks
+  | [], _, _ => by simp [preRev, sizeL]
+  | r :: rs, par, k => by
+    simp [preRev, sizeL, preRev_length rs par k, pre_length r]; omega
+end
+
+mutual
+theorem main (kidsOf : Int → List Int) : ∀ (r : Rose), Agrees kidsOf r →
+    ∀ (rest : List (Int × Int)) (out : List (Int × Int)) (p : Int),
+    run kidsOf r.size ⟨(r.id, p) :: rest, out⟩ = ⟨rest, out ++ pre r p out.length⟩
+  | .node i ks, hA, rest, out, p => by
+    simp only [Agrees] at hA
+    obtain ⟨hk, hAL⟩ := hA
+    have e : (Rose.node i ks).size = 1 + sizeL ks := by simp [Rose.size]
+    rw [e, run_add]
+    have h1 : run kidsOf 1 ⟨((Rose.node i ks).id, p) :: rest, out⟩ =
+        ⟨(ks.map (fun c => (c.id, (out.length : Int)))).reverse ++ rest, out ++ [(i, p)]⟩ := by
+      simp [run, step, Rose.id, hk, List.map_map, Function.comp_def]
+    rw [h1]
+    have := mainL kidsOf ks hAL rest (out ++ [(i, p)]) out.length
+    rw [this]
+    simp [pre]
+theorem mainL (kidsOf : Int → List Int) : ∀ (ks : List Rose), AgreesL kidsOf ks →
+    ∀ (rest : List (Int × Int)) (out : List (Int × Int)) (par : Nat),
+    run kidsOf (sizeL ks) ⟨(ks.map (fun c => (c.id, (par : Int)))).reverse ++ rest, out⟩
+      = ⟨rest, out ++ preRev ks par out.length⟩
+  | [], _, rest, out, par => by simp [sizeL, run, preRev]
+  | r :: rs, hA, rest, out, par => by
+    simp only [AgreesL] at hA
+    obtain ⟨hAr, hArs⟩ := hA
+    have e : sizeL (r :: rs) = sizeL rs + r.size := by simp [sizeL]; omega
+    rw [e, run_add]
+    have hstack : ((r :: rs).map (fun c => (c.id, (par : Int)))).reverse ++ rest
+        = (rs.map (fun c => (c.id, (par : Int)))).reverse ++ ((r.id, (par : Int)) :: rest) := by simp
+    rw [hstack, mainL kidsOf rs hArs, main kidsOf r hAr]
+    simp [preRev]
+end
+
+-- the emitted old ids are a permutation of the tree's ids
+mutual
+theorem pre_perm : ∀ (r : Rose) (p : Int) (k : Nat), ((pre r p k).map (·.1)).Perm r.ids
+  | .node i ks, p, k => by
+    simp only [pre, List.map_cons, Rose.ids]
+    exact List.Perm.cons _ (preRev_perm ks k (k+1))
+theorem preRev_perm : ∀ (ks : List Rose) (par k : Nat), ((preRev ks par k).map (·.1)).Perm (idsL ks)
+  | [], _, _ => by simp [preRev, idsL]
+  | r :: rs, par, k => by
+    simp only [preRev, List.map_append, idsL]
+    exact (List.perm_append_comm).trans ((pre_perm r _ _).append (preRev_perm rs par k))
+end
+
+theorem pre_head (r : Rose) (p : Int) (k : Nat) : (pre r p k)[0]? = some (r.id, p) := by
+  cases r; simp [pre, Rose.id]
+
+-- parent structure: every row but the first names a strictly earlier row of the same block, and the
+-- (old id of that row, old id of this row) pair is an edge of the tree
+mutual
+theorem pre_parent : ∀ (r : Rose) (p : Int) (k : Nat) (j : Nat) (o q : Int),
+    (pre r p k)[j]? = some (o, q) → 0 < j →
+    ∃ m o' q', m < j ∧ q = ((k + m : Nat) : Int) ∧ (pre r p k)[m]? = some (o', q') ∧ (o', o) ∈ edges r
+  | .node i ks, p, k, j, o, q, h, hj => by
+    cases j with
+    | zero => omega
+    | succ j =>
+      simp only [pre, List.getElem?_cons_succ] at h
+      rcases preRev_parent ks k (k+1) j o q h with ⟨hq, ho⟩ | ⟨m, o', q', hm, hq, hrow, he⟩
+      · refine ⟨0, i, p, by omega, by simp [hq], by simp [pre], ?_⟩
+        simp only [edges, List.mem_append, List.mem_map]
+        left
+        obtain ⟨c, hc, rfl⟩ := List.mem_map.1 ho
+        exact ⟨c, hc, rfl⟩
+      · refine ⟨m+1, o', q', by omega, ?_, by simpa [pre] using hrow, ?_⟩
+        · rw [hq]; congr 1; omega
+        · simp [edges, he]
+theorem preRev_parent : ∀ (ks : List Rose) (par k : Nat) (j : Nat) (o q : Int),
+    (preRev ks par k)[j]? = some (o, q) →
+    (q = (par : Int) ∧ o ∈ ks.map Rose.id) ∨
+    ∃ m o' q', m < j ∧ q = ((k + m : Nat) : Int) ∧ (preRev ks par k)[m]? = some (o', q') ∧ (o', o) ∈ edgesL ks
+  | [], _, _, j, o, q, h => by simp [preRev] at h
+  | r :: rs, par, k, j, o, q, h => by
+    simp only [preRev] at h ⊢
+    by_cases hlt : j < (preRev rs par k).length
+    · rw [List.getElem?_append_left hlt] at h
+      rcases preRev_parent rs par k j o q h with ⟨hq, ho⟩ | ⟨m, o', q', hm, hq, hrow, he⟩
+      · left; exact ⟨hq, by simp only [List.map_cons, List.mem_cons]; exact Or.inr ho⟩
+      · right
+        refine ⟨m, o', q', hm, hq, ?_, ?_⟩
+        · rw [List.getElem?_append_left (by omega)]; exact hrow
+        · simp [edgesL, he]
+    · rw [List.getElem?_append_right (by omega)] at h
+      cases hj' : j - (preRev rs par k).length with
+      | zero =>
+        rw [hj', pre_head] at h
+        simp only [Option.some.injEq, Prod.mk.injEq] at h
+        left; exact ⟨h.2.symm, by simp [h.1]⟩
+      | succ j'' =>
+        rw [hj'] at h
+        rcases pre_parent r par _ (j''+1) o q h (by omega) with ⟨m, o', q', hm, hq, hrow, he⟩
+        right
+        refine ⟨(preRev rs par k).length + m, o', q', by omega, ?_, ?_, ?_⟩
+        · rw [hq]; congr 1; omega
+        · rw [List.getElem?_append_right (by omega)]
+          simpa using hrow
+        · simp [edgesL, he]
+end
+
+mutual
+theorem agrees_edge (kidsOf : Int → List Int) : ∀ (r : Rose), Agrees kidsOf r →
+    ∀ a b, (a, b) ∈ edges r → b ∈ kidsOf a
+  | .node i ks, hA, a, b, hab => by
+    simp only [Agrees] at hA
+    simp only [edges, List.mem_append, List.mem_map, Prod.mk.injEq] at hab
+    rcases hab with ⟨c, hc, rfl, rfl⟩ | hab
+    · rw [hA.1]; exact List.mem_map_of_mem hc
+    · exact agreesL_edge kidsOf ks hA.2 a b hab
+theorem agreesL_edge (kidsOf : Int → List Int) : ∀ (ks : List Rose), AgreesL kidsOf ks →
+    ∀ a b, (a, b) ∈ edgesL ks → b ∈ kidsOf a
+  | [], _, a, b, hab => by simp [edgesL] at hab
+  | r :: rs, hA, a, b, hab => by
+    simp only [AgreesL] at hA
+    simp only [edgesL, List.mem_append] at hab
+    rcases hab with hab | hab
+    · exact agrees_edge kidsOf r hA.1 a b hab
+    · exact agreesL_edge kidsOf rs hA.2 a b hab
+end
+
+theorem tree_length (r : Rose) (ids pids : List Int) (h : IsTreeTable r ids pids) : ids.length = r.size := by
+  rw [← ids_length r]; exact h.2.1.length_eq.symm
+
 /-- **the loop is a structural pre-order**: started at the root with new parent `p`, after exactly `|r|`
 pops the stack is empty and the rows emitted are `pre r p 0` — any shape, depth, numbering -/
 theorem machine_eq_pre (kidsOf : Int → List Int) (r : Rose) (hA : Agrees kidsOf r) (p : Int) (extra : Nat) :
     run kidsOf (r.size + extra) ⟨[(r.id, p)], []⟩ = ⟨[], pre r p 0⟩ := by
-  sorry
+  rw [run_add]
+  have := main kidsOf r hA [] [] p
+  simp only [List.length_nil, List.nil_append] at this
+  rw [this, run_empty]
 
 /-- on a tree table the model does not fail, and returns the pre-order rows -/
 theorem sort_ok (r : Rose) (ids pids : List Int) (h : IsTreeTable r ids pids) :
     sortNodesImpl ids pids = .ok ⟨(pre r (-1) 0).map (·.1), (pre r (-1) 0).map (·.2),
                                   (pre r (-1) 0).map (fun op => indexOf ids op.1)⟩ := by
-  sorry
+  obtain ⟨hR, hperm, hlen, hcount, hroot⟩ := h
+  have hn : ids.length = r.size := by rw [← ids_length r]; exact hperm.length_eq.symm
+  unfold sortNodesImpl
+  rw [if_neg (by simp [hcount]), hroot]
+  simp only
+  rw [hn, machine_eq_pre _ r hR.1 (-1) 1]
+  simp [pre_length]
+
+/-- the result record, once and for all -/
+theorem sort_res (r : Rose) (ids pids : List Int) (h : IsTreeTable r ids pids) (res : Result)
+    (hres : sortNodesImpl ids pids = .ok res) :
+    res = ⟨(pre r (-1) 0).map (·.1), (pre r (-1) 0).map (·.2),
+           (pre r (-1) 0).map (fun op => indexOf ids op.1)⟩ := by
+  rw [sort_ok r ids pids h] at hres
+  injection hres with hres
+  exact hres.symm
 
 /-- **one-to-one**: the map new id ↦ old id lists every old id exactly once -/
 theorem sort_perm (r : Rose) (ids pids : List Int) (h : IsTreeTable r ids pids) (res : Result)
     (hres : sortNodesImpl ids pids = .ok res) :
     res.idMap.Perm ids ∧ res.idMap.Nodup ∧ res.idMap.length = ids.length ∧ res.newPids.length = ids.length := by
-  sorry
+  have e := sort_res r ids pids h res hres
+  subst e
+  have hp : ((pre r (-1) 0).map (·.1)).Perm ids := (pre_perm r (-1) 0).trans h.2.1
+  refine ⟨hp, ?_, ?_, ?_⟩
+  · exact ((pre_perm r (-1) 0).nodup_iff).2 h.1.2
+  · exact hp.length_eq
+  · simp [pre_length, tree_length r ids pids h]
 
 /-- **the root is 0 and every parent's new id is smaller than its children's** -/
 theorem sort_sorted (r : Rose) (ids pids : List Int) (h : IsTreeTable r ids pids) (res : Result)
     (hres : sortNodesImpl ids pids = .ok res) :
     res.newPids.head? = some (-1) ∧
     ∀ k (hk : k < res.newPids.length), 0 < k → 0 ≤ res.newPids[k] ∧ res.newPids[k] < (k : Int) := by
-  sorry
+  have e := sort_res r ids pids h res hres
+  subst e
+  refine ⟨?_, ?_⟩
+  · cases r; simp [pre]
+  · intro k hk hk0
+    simp only [List.length_map] at hk
+    simp only [List.getElem_map]
+    have hrow : (pre r (-1) 0)[k]? = some ((pre r (-1) 0)[k].1, (pre r (-1) 0)[k].2) := by
+      simp [List.getElem?_eq_getElem hk]
+    obtain ⟨m, o', q', hm, hq, -, -⟩ := pre_parent r (-1) 0 k _ _ hrow hk0
+    rw [hq]; omega
 
 theorem sort_root (r : Rose) (ids pids : List Int) (h : IsTreeTable r ids pids) (res : Result)
     (hres : sortNodesImpl ids pids = .ok res) : res.idMap.head? = some r.id := by
-  sorry
+  have e := sort_res r ids pids h res hres
+  subst e
+  cases r; simp [pre, Rose.id]
 
 /-- **the parent relation is preserved by the relabelling**: for every new node `k > 0`, its new parent `q`
 is the new id of the old parent of its old node: `(idMap[q], idMap[k])` is an edge of the tree -/
@@ -70,12 +241,25 @@ theorem sort_parent (r : Rose) (ids pids : List Int) (h : IsTreeTable r ids pids
     (hres : sortNodesImpl ids pids = .ok res) :
     ∀ k (hk : k < res.newPids.length) (hk' : k < res.idMap.length), 0 < k →
       ∃ q : Nat, ∃ hq : q < res.idMap.length, res.newPids[k] = (q : Int) ∧ (res.idMap[q], res.idMap[k]) ∈ edges r := by
-  sorry
+  have e := sort_res r ids pids h res hres
+  subst e
+  intro k hk hk' hk0
+  simp only [List.length_map] at hk
+  simp only [List.getElem_map, List.length_map]
+  have hrow : (pre r (-1) 0)[k]? = some ((pre r (-1) 0)[k].1, (pre r (-1) 0)[k].2) := by
+    simp [List.getElem?_eq_getElem hk]
+  obtain ⟨m, o', q', hm, hq, hrow', he⟩ := pre_parent r (-1) 0 k _ _ hrow hk0
+  have hm' : m < (pre r (-1) 0).length := by omega
+  refine ⟨m, hm', by simpa using hq, ?_⟩
+  rw [List.getElem?_eq_getElem hm'] at hrow'
+  simp only [Option.some.injEq] at hrow'
+  rw [hrow']
+  exact he
 
 /-- an edge of the representing rose is a row of the table: the child's row names the parent's id -/
 theorem edge_is_row (r : Rose) (ids pids : List Int) (h : Represents r ids pids) (a b : Int) (hab : (a, b) ∈ edges r) :
     b ∈ tableKids ids pids a := by
-  sorry
+  exact agrees_edge _ r h.1 a b hab
 
 /-- `indices` is the row permutation: row `indices[k]` of the input is the row of old id `idMap[k]` -/
 theorem sort_indices (r : Rose) (ids pids : List Int) (h : IsTreeTable r ids pids) (res : Result)
@@ -83,14 +267,23 @@ theorem sort_indices (r : Rose) (ids pids : List Int) (h : IsTreeTable r ids pid
     res.indices.length = ids.length ∧
     ∀ k (hk : k < res.indices.length) (hk' : k < res.idMap.length),
       ∃ hi : res.indices[k] < ids.length, ids[res.indices[k]] = res.idMap[k] := by
-  sorry
+  have e := sort_res r ids pids h res hres
+  subst e
+  refine ⟨by simp [pre_length, tree_length r ids pids h], ?_⟩
+  intro k hk hk'
+  simp only [List.length_map] at hk
+  simp only [List.getElem_map]
+  apply indexOf_spec
+  have hp : ((pre r (-1) 0).map (·.1)).Perm ids := (pre_perm r (-1) 0).trans h.2.1
+  apply hp.mem_iff.1
+  exact List.mem_map_of_mem (List.getElem_mem hk)
 
 /-- **every per-node column (extra columns included) is carried along**: the value at new node `k` is the
 value of the old row `indices[k]` -/
 theorem sort_columns {α : Type} [Inhabited α] (col : List α) (indices : List Nat) (k : Nat) (hk : k < indices.length) :
     (permute col indices).length = indices.length ∧
     (permute col indices)[k]'(by simp [permute]; exact hk) = col.getD indices[k] default := by
-  sorry
+  simp [permute]
 
 -- the relabelled tree, in the NEW table order (children appear from the old last to the old first)
 mutual
@@ -101,6 +294,121 @@ def relabRev : List Rose → Nat → List Rose
   | r :: rs, k => relabRev rs k ++ [relab r (k + sizeL rs)]
 end
 
+/-! ### helper lemmas: the output table is the table of `relab r 0` -/
+
+mutual
+theorem relab_size : ∀ (r : Rose) (k : Nat), (relab r k).size = r.size
+  | .node i ks, k => by simp [relab, Rose.size, relabRev_size ks (k+1)]
+theorem relabRev_size : ∀ (ks : List Rose) (k : Nat), sizeL (relabRev ks k) = sizeL ks
+  | [], _ => by simp [relabRev]
+  | r :: rs, k => by
+    simp [relabRev, sizeL_append, sizeL, relabRev_size rs k, relab_size r]; omega
+end
+
+theorem relab_id (r : Rose) (k : Nat) : (relab r k).id = (k : Int) := by
+  cases r; simp [relab, Rose.id]
+
+mutual
+theorem relab_ids : ∀ (r : Rose) (k : Nat), (relab r k).ids = (List.range' k r.size).map Int.ofNat
+  | .node i ks, k => by
+    have e : (Rose.node i ks).size = sizeL ks + 1 := by simp [Rose.size]; omega
+    rw [e, List.range'_succ]
+    simp [relab, Rose.ids, relabRev_ids ks (k+1)]
+theorem relabRev_ids : ∀ (ks : List Rose) (k : Nat),
+    idsL (relabRev ks k) = (List.range' k (sizeL ks)).map Int.ofNat
+  | [], _ => by simp [relabRev, idsL, sizeL]
+  | r :: rs, k => by
+    have e : sizeL (r :: rs) = sizeL rs + r.size := by simp [sizeL]; omega
+    rw [e, ← List.range'_append_1, List.map_append]
+    simp [relabRev, idsL_append, idsL, relabRev_ids rs k, relab_ids r]
+end
+
+-- the parent column of a block: the parent handed in, or a new id of the block
+mutual
+theorem pre_snd_mem : ∀ (r : Rose) (p : Int) (k : Nat) (x : Int), x ∈ (pre r p k).map (·.2) →
+    x = p ∨ ((k : Int) ≤ x ∧ x < ((k + r.size : Nat) : Int))
+  | .node i ks, p, k, x, hx => by
+    simp only [pre, List.map_cons, List.mem_cons] at hx
+    rcases hx with hx | hx
+    · exact Or.inl hx
+    · right
+      have := preRev_snd_mem ks k (k+1) x hx
+      simp only [Rose.size]
+      omega
+theorem preRev_snd_mem : ∀ (ks : List Rose) (par k : Nat) (x : Int), x ∈ (preRev ks par k).map (·.2) →
+    x = (par : Int) ∨ ((k : Int) ≤ x ∧ x < ((k + sizeL ks : Nat) : Int))
+  | [], _, _, x, hx => by simp [preRev] at hx
+  | r :: rs, par, k, x, hx => by
+    simp only [preRev, List.map_append, List.mem_append] at hx
+    simp only [sizeL]
+    rcases hx with hx | hx
+    · have := preRev_snd_mem rs par k x hx
+      omega
+    · have := pre_snd_mem r par _ x hx
+      rw [preRev_length] at this
+      omega
+end
+
+-- the rows whose parent is `par` are the heads of the kids' blocks, in table order
+theorem preRev_top : ∀ (ks : List Rose) (par k : Nat), par < k →
+    tk ((preRev ks par k).map (·.2)) k par = (relabRev ks k).map Rose.id
+  | [], _, _, _ => by simp [preRev, relabRev, tk]
+  | r :: rs, par, k, hp => by
+    simp only [preRev, List.map_append, tk_append, List.length_map, preRev_length, relabRev,
+      List.map_cons, List.map_nil, relab_id, preRev_top rs par k hp]
+    congr 1
+    cases r with
+    | node i ks' =>
+      simp only [pre, List.map_cons, tk, if_true]
+      rw [tk_eq_nil]
+      intro hmem
+      have := preRev_snd_mem ks' _ _ _ hmem
+      omega
+
+mutual
+theorem relab_agrees (kidsOf : Int → List Int) : ∀ (r : Rose) (p : Int) (k : Nat), p < (k : Int) →
+    (∀ q : Nat, k ≤ q → q < k + r.size → kidsOf (q : Int) = tk ((pre r p k).map (·.2)) k (q : Int)) →
+    Agrees kidsOf (relab r k)
+  | .node i ks, p, k, hp, hk => by
+    simp only [relab, Agrees]
+    have hstep : ∀ q : Nat, k ≤ q →
+        tk ((pre (.node i ks) p k).map (·.2)) k (q : Int) = tk ((preRev ks k (k+1)).map (·.2)) (k+1) (q : Int) := by
+      intro q hq
+      simp only [pre, List.map_cons, tk]
+      rw [if_neg (by omega)]
+    refine ⟨?_, ?_⟩
+    · rw [hk k (Nat.le_refl k) (by simp only [Rose.size]; omega), hstep k (Nat.le_refl k), preRev_top ks k (k+1) (by omega)]
+    · apply relabRev_agrees kidsOf ks k (k+1) (by omega)
+      intro q hq1 hq2
+      rw [hk q (by omega) (by simp only [Rose.size]; omega), hstep q (by omega)]
+theorem relabRev_agrees (kidsOf : Int → List Int) : ∀ (ks : List Rose) (par k : Nat), par < k →
+    (∀ q : Nat, k ≤ q → q < k + sizeL ks →
+      kidsOf (q : Int) = tk ((preRev ks par k).map (·.2)) k (q : Int)) →
+    AgreesL kidsOf (relabRev ks k)
+  | [], _, _, _, _ => by simp [relabRev, AgreesL]
+  | r :: rs, par, k, hp, hk => by
+    have hsplit : ∀ q : Int, tk ((preRev (r :: rs) par k).map (·.2)) k q =
+        tk ((preRev rs par k).map (·.2)) k q ++ tk ((pre r par (k + sizeL rs)).map (·.2)) (k + sizeL rs) q := by
+      intro q
+      simp only [preRev, List.map_append, tk_append, List.length_map, preRev_length]
+    simp only [relabRev, agreesL_append, AgreesL, and_true]
+    refine ⟨?_, ?_⟩
+    · apply relabRev_agrees kidsOf rs par k hp
+      intro q hq1 hq2
+      rw [hk q hq1 (by simp only [sizeL]; omega), hsplit]
+      rw [tk_eq_nil ((pre r par (k + sizeL rs)).map (·.2)) _ _ ?_, List.append_nil]
+      intro hmem
+      have := pre_snd_mem r par _ _ hmem
+      omega
+    · apply relab_agrees kidsOf r par (k + sizeL rs) (by omega)
+      intro q hq1 hq2
+      rw [hk q (by omega) (by simp only [sizeL]; omega), hsplit]
+      rw [tk_eq_nil ((preRev rs par k).map (·.2)) _ _ ?_, List.nil_append]
+      intro hmem
+      have := preRev_snd_mem rs par k _ hmem
+      omega
+end
+
 /-- **sorting a sorted result changes nothing but possibly sibling order**: the output table
 (`ids = 0..n-1`, `pids = newPids`) is itself a tree table — of the same tree relabelled, siblings in
 reverse order — and is sorted; hence every theorem above applies to a second sort. -/
@@ -109,12 +417,50 @@ theorem sort_again (r : Rose) (ids pids : List Int) (h : IsTreeTable r ids pids)
     IsTreeTable (relab r 0) ((List.range ids.length).map Int.ofNat) res.newPids ∧
     isSorted ((List.range ids.length).map Int.ofNat) res.newPids = true ∧
     (relab r 0).size = r.size := by
-  sorry
+  have hs := sort_sorted r ids pids h res hres
+  have e := sort_res r ids pids h res hres
+  subst e
+  have hn := tree_length r ids pids h
+  simp only at hs ⊢
+  have hlen : ((List.range ids.length).map Int.ofNat).length = ((pre r (-1) 0).map (·.2)).length := by
+    simp [pre_length, hn]
+  have hids : (relab r 0).ids = (List.range ids.length).map Int.ofNat := by
+    rw [relab_ids, hn, List.range_eq_range']
+  refine ⟨⟨⟨?_, ?_⟩, ?_, hlen, ?_, ?_⟩, ?_, relab_size r 0⟩
+  · apply relab_agrees _ r (-1) 0 (by omega)
+    intro q _ _
+    rw [tableKids_range _ _ (by simp [pre_length, hn])]
+  · rw [hids]
+    exact List.Pairwise.map _ (fun a b hab he => hab (Int.ofNat.inj he)) List.nodup_range
+  · rw [hids]
+  · cases r with
+    | node i ks =>
+      simp only [pre, List.map_cons, countRoots, List.filter_cons, decide_true, if_true, List.length_cons]
+      rw [List.filter_eq_nil_iff.2]
+      · rfl
+      · intro x hx
+        have := preRev_snd_mem ks 0 1 x hx
+        simp only [decide_eq_true_eq]
+        omega
+  · cases r with
+    | node i ks =>
+      have : ids.length = sizeL ks + 1 := by rw [hn]; simp only [Rose.size]; omega
+      rw [this, List.range_eq_range', List.range'_succ]
+      simp [pre, firstRoot, relab, Rose.id]
+  · rw [SortM.isSorted_iff _ _ hlen]
+    intro k h1 h2
+    simp only [List.getElem_map, List.getElem_range]
+    cases k with
+    | zero =>
+      cases r; simp [pre]
+    | succ k =>
+      have := (hs.2 (k+1) h2 (by omega)).2
+      simpa using this
 
 /-- `is_sorted` says exactly "every row's parent id is smaller than its own id" -/
 theorem isSorted_iff (ids pids : List Int) (hl : ids.length = pids.length) :
     isSorted ids pids = true ↔ ∀ k (h1 : k < ids.length) (h2 : k < pids.length), pids[k] < ids[k] := by
-  sorry
+  exact SortM.isSorted_iff ids pids hl
 
 -- non-vacuity: a shuffled, non-contiguous 5-row table, its rose, and what the model returns
 def exIds : List Int := [9, 4, 7, 12, 5]
